@@ -2393,7 +2393,7 @@ func checkLocalfsPutOpens(c *Ctx, f *FuncInfo) {
 		c.check(okArgs, "put.exclusive.every-open", callKey(f, call), p.Pos(call.Pos()), "OpenFile(name, flag, …) with the shared name and flag variables", "an OpenFile of Put does not use the shared (name, flag) variables: `"+exprString(call.Args[0])+", "+exprString(call.Args[1])+"` — a create-if-absent write through this operand is not arbitrated by O_EXCL on the key")
 		return true
 	})
-	c.check(nOpen == 2, "put.exclusive.every-open", f.ID+":sites", p.Pos(f.Decl.Pos()), "two OpenFile sites (WriterTo and PipeIO operands)", "expected the two OpenFile sites of Put, found "+itoa(nOpen))
+	c.check(nOpen >= 1, "put.exclusive.every-open", f.ID+":sites", p.Pos(f.Decl.Pos()), itoa(nOpen)+" OpenFile site(s) (one per retried operand)", "Put no longer opens its target with OpenFile")
 	if flagVar == nil || nameVar == nil {
 		return
 	}
